@@ -428,7 +428,73 @@ func (g *Gen) callExpr(t T, d int) *Node {
 
 // Stmt generates one statement (and updates the scope model).
 func (g *Gen) Stmt(d int) *Node { //nolint:gocyclo,funlen // grammar
-	switch g.R.IntN(23) {
+	switch g.R.IntN(28) {
+	case 26, 27: // an integer parameter or counted-loop variable re-bound inside the body (to another type, or as a nested loop variable)
+		name := g.fresh("i")
+		var rebind *Node
+		switch g.R.IntN(5) {
+		case 0:
+			rebind = Define(name, g.strLit())
+		case 1:
+			rebind = Define(name, In("*", Id(name), g.floatLit()))
+		case 2:
+			rebind = Define(name, MkArr(Id(name)))
+		case 3:
+			rebind = Assign(name, In("+", Id(name), g.intLit()))
+		default:
+			rebind = &Node{K: KFor, Op: "var", Name: name, Define: true, Kids: []*Node{Lit(int64(1 + g.R.IntN(3)))}, Body: []*Node{Bi("println", Id(name))}}
+		}
+		if g.chance(50) {
+			body := []*Node{Bi("println", Id(name)), rebind}
+			if rebind.K != KFor {
+				body = append(body, Bi("println", Id(name)))
+			}
+			if g.chance(50) {
+				return &Node{K: KFor, Op: "var", Name: name, Kids: []*Node{Lit(int64(2 + g.R.IntN(3)))}, Body: body}
+			}
+			return &Node{K: KFor, Op: "range", Name: name, Kids: []*Node{Lit(int64(1)), Lit(int64(2 + g.R.IntN(3)))}, Body: body}
+		}
+		fn := g.fresh("f")
+		body := []*Node{rebind}
+		if rebind.K != KFor {
+			body = append(body, Id(name))
+		}
+		def := &Node{K: KFunc, Name: fn, Params: []string{name}, Body: body}
+		return &Node{K: KIf, Kids: []*Node{Lit(true)}, Body: []*Node{def, Bi("println", Call(Id(fn), g.intLit()), Call(Id(fn), g.intLit()))}}
+	case 23: // a function that only writes an outer variable, called twice with the same argument around a change of that variable
+		gv, fn, pn := g.fresh("v"), g.fresh("f"), g.fresh("p")
+		arg := g.intLit()
+		var rhs *Node = Id(pn)
+		if g.chance(60) {
+			rhs = In([]string{"+", "*", "-"}[g.R.IntN(3)], Id(pn), g.intLit())
+		}
+		def := &Node{K: KFunc, Name: fn, Params: []string{pn}, Body: []*Node{Assign(gv, rhs)}}
+		if g.chance(40) {
+			lit := *def
+			lit.Name = ""
+			lit.Lambda = 1
+			def = Assign(fn, &lit)
+		}
+		stmts := []*Node{Assign(gv, g.intLit()), def, Call(Id(fn), arg), Bi("println", Id(gv)), Assign(gv, g.intLit()), Call(Id(fn), arg), Bi("println", Id(gv))}
+		g.declare(gv, TInt)
+		return &Node{K: KIf, Kids: []*Node{Lit(true)}, Body: stmts}
+	case 24, 25: // a variable of the current scope (parameters included) re-bound to a value of another type, with = or :=
+		top := g.scopes[len(g.scopes)-1]
+		var cand []vinfo
+		for _, v := range top {
+			if !v.ro && !IsConstant(v.name) && v.name != ".." {
+				cand = append(cand, v)
+			}
+		}
+		if len(cand) == 0 {
+			return g.printStmt(d)
+		}
+		v := cand[g.R.IntN(len(cand))]
+		t := T(g.R.IntN(7))
+		n := Assign(v.name, g.Expr(t, d-1))
+		n.Define = g.chance(50)
+		g.declare(v.name, t)
+		return n
 	case 22: // slice then append twice, the source and both results stay observable (spare capacity must not be shared)
 		a, b, c1, c2 := g.fresh("v"), g.fresh("v"), g.fresh("v"), g.fresh("v")
 		n := 6 + g.R.IntN(12)
@@ -644,7 +710,11 @@ func (g *Gen) funcDef(d int) *Node {
 	for i := range params {
 		params[i] = g.fresh("p")
 		ptypes[i] = T(g.R.IntN(7))
-		g.declareRO(params[i], ptypes[i])
+		if g.chance(50) {
+			g.declare(params[i], ptypes[i]) // parameters are ordinary local variables: the body may re-bind them
+		} else {
+			g.declareRO(params[i], ptypes[i])
+		}
 	}
 	vari := g.chance(12)
 	if vari {
